@@ -152,7 +152,15 @@ where
                 // The commit will fail if the generation of the value we set does not match
                 // the generation of the value that was initialized. We do not know which one
                 // is the correct one, so we just retry until we get a match.
-                if expected_generation == actual_generation {
+                // Matching generations only prove that the value we intended to set is the value
+                // that was set. A `set_global()` may have published a newer value and invalidated
+                // the region while we were still cloning, in which case we have just overwritten
+                // that invalidation with an outdated value that nothing would ever invalidate
+                // again. Therefore we also verify that the value we set is still the latest one:
+                // a write that publishes after this check also invalidates after this check.
+                if expected_generation == actual_generation
+                    && self.global_state.latest_value.load().generation == expected_generation
+                {
                     // We are done - the universe did not change during initialization.
                     break;
                 }
@@ -910,5 +918,60 @@ mod tests {
             // Second thread should have succeeded.
             assert_eq!(result2, 42);
         });
+    }
+
+    #[test]
+    fn set_global_during_regional_initialization_is_not_lost() {
+        use std::sync::Mutex;
+
+        type Target = Arc<Mutex<Option<RegionCached<WritesOnClone>>>>;
+
+        // Publishes a new value while it is being cloned into a region, just like a
+        // `set_global()` on another thread that completes at that moment would.
+        #[derive(Debug)]
+        struct WritesOnClone {
+            value: i32,
+            target: Target,
+        }
+
+        impl Clone for WritesOnClone {
+            fn clone(&self) -> Self {
+                let target = self.target.lock().unwrap().take();
+
+                if let Some(target) = target {
+                    target.set_global(Self {
+                        value: 2,
+                        target: Arc::clone(&self.target),
+                    });
+                }
+
+                Self {
+                    value: self.value,
+                    target: Arc::clone(&self.target),
+                }
+            }
+        }
+
+        let hardware = SystemHardware::fake(
+            HardwareBuilder::new().processor(ProcessorBuilder::new().id(0).memory_region(0)),
+        );
+
+        let target = Target::default();
+        let cached = RegionCached::with_hardware(
+            WritesOnClone {
+                value: 1,
+                target: Arc::clone(&target),
+            },
+            hardware,
+        );
+        *target.lock().unwrap() = Some(cached.clone());
+
+        // The first read initializes the region and the write completes in the middle of that.
+        // Being weakly consistent, this read may observe either value...
+        let first = cached.with_cached(|v| v.value);
+        assert!(first == 1 || first == 2);
+
+        // ...but the region must not keep serving the overwritten value afterwards.
+        assert_eq!(cached.with_cached(|v| v.value), 2);
     }
 }
